@@ -24,6 +24,7 @@ CONSTANTS NT, Ins, Rel, Blk,
           MaxClock, Cap, MaxArr, MaxRestart, MaxCheck,
           MaxReorg,     \* how often the top block may be orphaned
           Race,         \* TRUE: the consumer may be interleaved at the point after the mempool add (F10)
+          Sources,      \* where transactions come from: subset of {"TT", "UT", "LOC", "TX", "UX", "NU", "NX"}
           Fix,          \* repaired defects assumed by the model: subset of {"reannounce", "race", "staleproof", "neverboth"}
           Mut           \* "" or a mutant
 
@@ -84,10 +85,12 @@ Note(kind, t, s) == [k |-> kind, t |-> t, safe |-> s.safe, unsafe |-> s.unsafe, 
 
 -----------------------------------------------------------------------------
 (* environment *)
-Arrive(t, src) ==            \* tx message ("TT" trusted, "UT" untrusted connection; "TX"/"UX" inside an extended message) or local submit ("LOC")
+Arrive(t, src) ==            \* tx message ("TT" trusted, "UT" untrusted connection; "TX"/"UX" inside an extended message) or local submit ("LOC");
+                             \* "NU"/"NX": from an untrusted connection that has not been verified to be on this chain - ignored
   /\ arr < MaxArr /\ Len(q) < Cap
   /\ (src = "LOC" => ready)          \* SendTx waits (up to 25 s) for the node to be in sync before it queues the transaction
-  /\ q' = IF ready \/ src \in {"UT", "UX"} THEN Append(q, [t |-> t, tr |-> src \notin {"UT", "UX"}, safe |-> src = "LOC"])
+  /\ q' = IF src \in {"NU", "NX"} THEN q
+          ELSE IF ready \/ src \in {"UT", "UX"} THEN Append(q, [t |-> t, tr |-> src \notin {"UT", "UX"}, safe |-> src = "LOC"])
           ELSE q       \* the trusted connection's tx handler drops transactions while the node is not in sync; an untrusted
                        \* connection looks at its own verification state (handlers/untrusted_transaction.go:36)
   /\ arr' = arr + 1 /\ act' = A("Arrive", t, src)
@@ -95,7 +98,8 @@ Arrive(t, src) ==            \* tx message ("TT" trusted, "UT" untrusted connect
 
 Inv(t, src) ==               \* inventory from the trusted ("TT") or an untrusted ("UT") connection: MemPool.AddRequest
   /\ arr < MaxArr
-  /\ mp' = IF ready \/ src = "UT" THEN [mp EXCEPT ![t] = [st |-> IF @.st = "no" THEN "mark" ELSE @.st, tr |-> @.tr \/ src = "TT"]]
+  /\ mp' = IF src = "NU" THEN mp       \* inventories of an unverified untrusted connection are ignored
+           ELSE IF ready \/ src = "UT" THEN [mp EXCEPT ![t] = [st |-> IF @.st = "no" THEN "mark" ELSE @.st, tr |-> @.tr \/ src = "TT"]]
            ELSE mp      \* the trusted connection's inventories are ignored while the node is not in sync (an untrusted connection
                         \* looks at its own verification state: handlers/untrusted_inventory.go:40)
   /\ arr' = arr + 1 /\ act' = A("Inv", t, src)
@@ -249,8 +253,8 @@ Init ==
   /\ act = A("init", 0, "")
 
 Next ==
-  \/ \E t \in Tx, s \in {"TT", "UT", "LOC", "TX", "UX"} : Arrive(t, s)
-  \/ \E t \in Tx, s \in {"TT", "UT"} : Inv(t, s)
+  \/ \E t \in Tx, s \in Sources : Arrive(t, s)
+  \/ \E t \in Tx, s \in {"TT", "UT"} \cup (Sources \cap {"NU"}) : Inv(t, s)
   \/ Tick \/ ConsumeA \/ ConsumeB \/ Checker \/ Restart
   \/ (Race \/ c.pc = "idle") /\ Block
   \/ (Race \/ c.pc = "idle") /\ Reorg
